@@ -342,11 +342,16 @@ Fixpoint infer_quantity (t : node) : option quantity :=
         end
     end.
 End WithUnits.
+Arguments ROk {A}.
+Arguments RErr {A}.
 
-(** Correspondence: what the harness observed from [recipe_grid.compiler.compile]. *)
+(** Correspondence: what the harness observed from [recipe_grid.compiler.compile].
+    A compile error carries (line, column, snippet) relative to the source of
+    the block being compiled but not the block index: the harness lists every
+    (block, offset) consistent with what was reported. *)
 Inductive observed :=
 | ObsOk (bs : list (list node))
-| ObsErr (k : cerr) (block : nat) (off : N)
+| ObsErr (k : cerr) (cands : list (nat * N))
 | ObsOther.            (* any other exception *)
 
 Definition blocks_same (a b : list (list node)) : bool := list_eqb (list_eqb node_same) a b.
@@ -354,10 +359,10 @@ Definition blocks_same (a b : list (list node)) : bool := list_eqb (list_eqb nod
 Definition outcome_matches (o : outcome) (x : observed) : bool :=
   match o, x with
   | COk a, ObsOk b => blocks_same a b
-  | CErr k bl off, ObsErr k' bl' off' =>
+  | CErr k bl off, ObsErr k' cands =>
       match k, k' with
       | NameRedefined, NameRedefined | ProportionGiven, ProportionGiven => true
       | _, _ => false
-      end && Nat.eqb bl bl' && N.eqb off off'
+      end && existsb (fun c => Nat.eqb bl (fst c) && N.eqb off (snd c)) cands
   | _, _ => false
   end.
